@@ -93,7 +93,7 @@ def _get_func_name_start_end(
 def _names_never_substituted(ast_tree: ast.Module) -> Collection[str]:
     """Names that _fix_variable_names refuses to rename anything to."""
     return (
-        tracing.get_imported_names(ast_tree)
+        tracing.get_import_bound_names(ast_tree)
         | constants.BUILTIN_FUNCTIONS
         | constants.PYTHON_KEYWORDS
     )
@@ -496,7 +496,7 @@ def align_variable_names_with_convention(
                     renamings[refnode].add(substitute)
 
     blacklisted_names = (
-        tracing.get_imported_names(ast_tree)
+        tracing.get_import_bound_names(ast_tree)
         | tracing.get_defined_names(ast_tree)
         | constants.BUILTIN_FUNCTIONS
         | constants.PYTHON_KEYWORDS
